@@ -437,6 +437,53 @@ theorem put_is_crash_safe (api : Api) (o : WOpts) (roots : Option (List Cid)) (a
       rw [this]
       refine ⟨hcut.1, ?_⟩
       rw [hcut.2, List.drop_left' hplen]
+/-- (14) **The final header write at every byte.** The index is complete on disk (any bytes), the header slot
+    still zero, and the header write (two `Write` calls) is cut after ANY `k` writes and `j` bytes. Then the
+    next reopening
+    * is refused without a single write (file untouched), or
+    * succeeds with the store of exactly the acknowledged blocks (invariant `Inv`), or
+    * behaves exactly as on the image in which the header write had not started
+      (`resumeCore image = resumeCore (zero-header image)`) — and that happens only while the DataSize field
+      has not reached the disk in a non-zero form: the window of the recorded finding, nothing wider. -/
+theorem final_header_write_at_every_byte (api : Api) (o : WOpts) (roots : Option (List Cid)) (log : List Block)
+    (fi : Bool) (index : Bytes) (k j : Nat) (hv2 : o.v1 = false)
+    (hwf : (CarHeader.mk roots 1).wf) (hmax : (encodeHeaderBody ⟨roots, 1⟩).length ≤ o.maxHeader)
+    (hmax32 : (encodeHeaderBody ⟨roots, 1⟩).length ≤ 32 * 2 ^ 20)
+    (lok : LayoutOK o.dataPad o.indexPad (payload roots log).length) (hlog : LogOK' log) :
+    let H := finalHeader o.dataPad o.indexPad (payload roots log).length true fi
+    let rest := zeros o.dataPad ++ (payload roots log ++ (zeros o.indexPad ++ index))
+    let image := crashImage (pragma ++ zeros 40 ++ rest) (headerEvs H) k j
+    ((∃ e, (resume api o roots image).res = .error e) ∧ (resume api o roots image).file = image) ∨
+    (∃ s, (resume api o roots image).res = .ok s ∧ Inv o roots s log ∧ s.closed = false ∧ s.finalized = false) ∨
+    resumeCore api o roots image = resumeCore api o roots (pragma ++ zeros 40 ++ rest) := by
+  intro H rest image
+  have hp := payload_length_pos roots log
+  have hHwf : H.wf := finalHeader_wf o.dataPad o.indexPad (payload roots log).length true fi hp lok
+  obtain ⟨m, hm, himg⟩ := crash_images_of_the_header_write H rest k j
+  have himg' : image = pragma ++ (H.bytes.take m ++ zeros (40 - m)) ++ rest := himg
+  by_cases h32 : 32 ≤ m
+  · -- DataSize complete
+    rcases crash_in_final_header_write api o roots log fi index m hv2 hwf hmax hmax32 lok hlog h32 hm with h | ⟨s, hr, inv, hc, hf, _⟩
+    · left; rw [himg']; exact h
+    · right; left; rw [himg']; exact ⟨s, hr, inv, hc, hf⟩
+  · by_cases h24 : 24 ≤ m
+    · by_cases hpart : (payload roots log).length % 256 ^ (m - 24) ≠ 0
+      · left
+        have := crash_in_final_header_datasize api o roots (payload roots log).length fi rest m hv2 hp lok h24 (by omega) hpart
+        rw [himg']; exact this
+      · -- the part of DataSize on disk is zero: not a header yet
+        right; right
+        have hz : (payload roots log).length % 256 ^ (m - 24) = 0 := by simpa using hpart
+        have hb := torn_header_24_32 H m h24 (by omega)
+        obtain ⟨e, he⟩ := readV2Header_bytes_zero_size
+          ({ H with dataSize := H.dataSize % 256 ^ (m - 24), indexOffset := 0 } : V2Header)
+          hHwf.hi hHwf.lo (Nat.lt_trans hHwf.dOff.2 (by decide))
+          (by show H.dataSize % 256 ^ (m - 24) = 0; exact hz) (show (0:Nat) < 2 ^ 64 by decide) rest
+        rw [himg', hb]
+        exact resumeCore_unreadable_header api o roots _ rest hv2 (V2Header.bytes_length _) e he
+    · right; right
+      rw [himg']
+      exact crash_before_datasize_on_disk api o roots H rest m hv2 (by omega)
 /-- Non-vacuity of (6)/(7): a concrete session, header cut at 37 and at 25 bytes. -/
 example : LayoutOK 0 0 60 ∧ (32 ≤ 37 ∧ 37 ≤ 40) ∧ (24 ≤ 25 ∧ 25 ≤ 32 ∧ 60 % 256 ^ (25 - 24) ≠ 0) := by
   refine ⟨⟨by decide, by decide, by decide⟩, by decide, by decide⟩
